@@ -83,7 +83,9 @@ def ident(ctx):
             nsites += 1
             classes, op = site
             content = [c for c in classes if _semantics(ctx, c, op) == 'content']
-            key = '%s|%s' % (fi.qual, norm(n))
+            # keyed by the expression with the function's locals replaced by placeholders (a renamed loop variable keeps the key)
+            from .vbmrule import canon_text
+            key = '%s|%s' % (fi.qual, canon_text(ctx, fi.qual, norm(n)))
             obs.append(Ob('SA-IDENT', key, not content, ctx.loc(fi, n),
                           '' if not content else '`%s` compares two %s nodes with the class\'s content-based %s: a different node with the same name, '
                           'lengths, date and flags (same name in another directory, a hard link, the record of another namespace) also matches, '
